@@ -3,11 +3,14 @@ package main
 import (
 	"context"
 	"encoding/json"
+	stderrors "errors"
 	"fmt"
+	"github.com/acquirecloud/golibs/container/iterable"
 	"math/rand"
 	"os"
 	"runtime"
 	"strconv"
+	"strings"
 	"sync"
 	"sync/atomic"
 	"time"
@@ -79,6 +82,7 @@ type linOp struct {
 	arg      string   // CAS: the version string given
 	keys     []string // GetMany
 	puts     []linPut // PutMany
+	cctx     bool     // the context passed to the call was already cancelled
 	pn       string   // the call panicked: text
 	err      error
 	ver      string        // Create: version returned
@@ -95,6 +99,9 @@ func recEvent(r *kvs.Record, id func(string) int) map[string]any {
 
 func (o *linOp) invEvent(id func(string) int) map[string]any {
 	ev := map[string]any{"e": "inv", "t": o.t, "op": o.op}
+	if o.cctx {
+		ev["cctx"] = true
+	}
 	switch o.op {
 	case "Create", "Put":
 		ev["k"], ev["val"], ev["exp"] = o.k, o.val, o.exp
@@ -116,6 +123,9 @@ func (o *linOp) invEvent(id func(string) int) map[string]any {
 
 func (o *linOp) retEvent(id func(string) int) map[string]any {
 	ev := map[string]any{"e": "ret", "t": o.t, "err": errClass(o.err)}
+	if o.cctx && stderrors.Is(o.err, context.Canceled) {
+		ev["err"] = "ctxerr"
+	}
 	if o.pn != "" {
 		ev["err"] = o.pn
 	}
@@ -362,6 +372,13 @@ func (th *linThread) do(op, k, sel string, fire bool) {
 	ctx := context.Background()
 	st := th.st
 	o := linOp{t: th.id, op: op, k: k}
+	if op != "GetMany" && op != "PutMany" && th.rnd.Intn(12) == 0 {
+		// the caller's context is ALREADY done: the call may ignore that (and answer as usual) or refuse with the
+		// context's error - but a call that reports an error has not changed anything
+		c, cancel := context.WithCancel(ctx)
+		cancel()
+		ctx, o.cctx = c, true
+	}
 	var et *time.Time
 	var vb []byte
 	var recs []kvs.Record
@@ -720,10 +737,15 @@ func driveKvLin(opt *Options) error {
 		}
 		bar := newLinBarrier(T)
 		var wg sync.WaitGroup
+		// in every other history the keys carry leading slashes on their way to the store (the lock uses such keys)
+		slashes := []string{"", "/", "", "//dir/"}[rnd.Intn(4)]
 		for i := 0; i < T; i++ {
 			th := &linThread{id: i + 1, st: shared, rnd: rand.New(rand.NewSource(rnd.Int63())), obs: map[string][]string{}, h: h, bar: bar, ops: make([]linOp, 0, 40)}
 			if perThread {
 				th.st = lr.clients[i]
+			}
+			if slashes != "" {
+				th.st = &prefixStore{in: th.st, pre: slashes}
 			}
 			threads[i] = th
 			wg.Add(1)
@@ -764,4 +786,69 @@ func driveKvLin(opt *Options) error {
 	sum, _ := json.Marshal(map[string]any{"histories": opt.N, "events": events, "ops": ops, "invocations_overlapping_another_call": overlaps, "kinds": kinds, "variant": variant})
 	fmt.Fprintln(os.Stdout, string(sum))
 	return nil
+}
+
+// prefixStore puts a prefix in front of every key on its way to the store and takes it off the keys that come back.
+type prefixStore struct {
+	in  kvs.Storage
+	pre string
+}
+
+func (p *prefixStore) k(k string) string { return p.pre + k }
+func (p *prefixStore) r(r kvs.Record) kvs.Record {
+	r.Key = p.pre + r.Key
+	return r
+}
+func (p *prefixStore) back(r kvs.Record) kvs.Record {
+	// (the Redis client reports keys without their leading slashes: take off whatever part of the prefix is there)
+	pre := p.pre
+	for len(pre) > 0 && !strings.HasPrefix(r.Key, pre) {
+		pre = pre[1:]
+	}
+	r.Key = strings.TrimPrefix(r.Key, pre)
+	return r
+}
+func (p *prefixStore) Create(ctx context.Context, r kvs.Record) (string, error) {
+	return p.in.Create(ctx, p.r(r))
+}
+func (p *prefixStore) Get(ctx context.Context, key string) (kvs.Record, error) {
+	r, err := p.in.Get(ctx, p.k(key))
+	return p.back(r), err
+}
+func (p *prefixStore) GetMany(ctx context.Context, keys ...string) ([]*kvs.Record, error) {
+	ks := make([]string, len(keys))
+	for i, k := range keys {
+		ks[i] = p.k(k)
+	}
+	rs, err := p.in.GetMany(ctx, ks...)
+	for _, r := range rs {
+		if r != nil {
+			*r = p.back(*r)
+		}
+	}
+	return rs, err
+}
+func (p *prefixStore) Put(ctx context.Context, r kvs.Record) (kvs.Record, error) {
+	x, err := p.in.Put(ctx, p.r(r))
+	return p.back(x), err
+}
+func (p *prefixStore) PutMany(ctx context.Context, rs []kvs.Record) error {
+	xs := make([]kvs.Record, len(rs))
+	for i, r := range rs {
+		xs[i] = p.r(r)
+	}
+	return p.in.PutMany(ctx, xs)
+}
+func (p *prefixStore) CasByVersion(ctx context.Context, r kvs.Record) (kvs.Record, error) {
+	x, err := p.in.CasByVersion(ctx, p.r(r))
+	return p.back(x), err
+}
+func (p *prefixStore) Delete(ctx context.Context, key string) error {
+	return p.in.Delete(ctx, p.k(key))
+}
+func (p *prefixStore) WaitForVersionChange(ctx context.Context, key, ver string) error {
+	return p.in.WaitForVersionChange(ctx, p.k(key), ver)
+}
+func (p *prefixStore) ListKeys(ctx context.Context, pattern string) (iterable.Iterator[string], error) {
+	return p.in.ListKeys(ctx, p.pre+pattern)
 }
